@@ -4,4 +4,530 @@ import AgVerif.Spec.SigBlock
 namespace AgVerif.SigBlock
 open AgVerif.Spec.SigBlock
 
+deriving instance DecidableEq for Except
+
+theorem leNat_encU32 (n : Nat) (h : n < 2 ^ 32) : leNat (encU32 n) = n := by
+  simp only [encU32, leNat]; omega
+
+theorem encU32_length (n : Nat) : (encU32 n).length = 4 := rfl
+theorem encU64_length (n : Nat) : (encU64 n).length = 8 := rfl
+
+theorem leNat_encU64 (n : Nat) (h : n < 2 ^ 64) : leNat (encU64 n) = n := by
+  simp only [encU64, encU32, leNat, List.cons_append, List.nil_append]; omega
+
+theorem readU32_enc (n : Nat) (r : Bytes) (h : n < 2 ^ 32) :
+    readU32 (encU32 n ++ r) = .ok (n, r) := by
+  have := leNat_encU32 n h
+  simp only [encU32] at this ⊢
+  simp only [List.cons_append, List.nil_append, readU32, this]
+
+theorem readUpTo_append (b r : Bytes) : readUpTo b.length (b ++ r) = (b, r) := by
+  simp [readUpTo]
+
+/-- reading a length-prefixed field: the prefix, then exactly the field -/
+theorem read_lp (b r : Bytes) (h : b.length < 2 ^ 32) :
+    readU32 (lp b ++ r) = .ok (b.length, b ++ r) := by
+  simp only [lp, List.append_assoc]; exact readU32_enc _ _ h
+
+theorem lp_length (b : Bytes) : (lp b).length = b.length + 4 := by
+  simp [lp, encU32_length]; omega
+
+theorem parseSeqF_step (fuel : Nat) (x : AlgItem) (rest : Bytes) (hx : ItemWF x) :
+    parseSeqF (fuel + 1) (encodeItem x ++ rest) =
+      (do let r ← parseSeqF fuel rest; .ok (x :: r)) := by
+  obtain ⟨h1, h2⟩ := hx
+  have hne : (encodeItem x ++ rest).isEmpty = false := by
+    simp [encodeItem, lp, encU32]
+  have hel : (encU32 x.1 ++ lp x.2).length < 2 ^ 32 := by
+    simp only [List.length_append, lp_length, encU32_length]; omega
+  rw [parseSeqF, hne]
+  simp only [encodeItem, Bool.false_eq_true, ↓reduceIte]
+  simp only [bind, Except.bind]
+  rw [read_lp _ _ hel]
+  simp only [readUpTo_append]
+  rw [readU32_enc _ _ h1]
+  simp only []
+  have : lp x.2 = lp x.2 ++ [] := by simp
+  rw [this, read_lp _ _ (by omega)]
+  simp
+
+theorem encodeSeq_cons (x : AlgItem) (xs : List AlgItem) :
+    encodeSeq (x :: xs) = encodeItem x ++ encodeSeq xs := by simp [encodeSeq]
+
+theorem parseSeqF_roundtrip (xs : List AlgItem) (hwf : ∀ x ∈ xs, ItemWF x) :
+    ∀ fuel, xs.length < fuel → parseSeqF fuel (encodeSeq xs) = .ok xs := by
+  induction xs with
+  | nil =>
+    intro fuel h
+    cases fuel with
+    | zero => omega
+    | succ f => simp [encodeSeq, parseSeqF]
+  | cons x xs ih =>
+    intro fuel h
+    cases fuel with
+    | zero => omega
+    | succ f =>
+      rw [encodeSeq_cons, parseSeqF_step _ _ _ (hwf x (by simp)),
+        ih (fun y hy => hwf y (by simp [hy])) f (by simpa using h)]
+      rfl
+
+theorem encodeSeq_length_ge (xs : List AlgItem) : xs.length ≤ (encodeSeq xs).length := by
+  induction xs with
+  | nil => simp [encodeSeq]
+  | cons x xs ih =>
+    rw [encodeSeq_cons]
+    simp only [List.length_cons, List.length_append, encodeItem, lp_length]
+    omega
+
+theorem parseSeq_roundtrip (xs : List AlgItem) (hwf : ∀ x ∈ xs, ItemWF x) :
+    parseSeq (encodeSeq xs) = .ok xs :=
+  parseSeqF_roundtrip xs hwf _ (by have := encodeSeq_length_ge xs; omega)
+
+/-! certificates -/
+theorem encodeCerts_cons (c : Bytes) (cs : List Bytes) :
+    encodeCerts (c :: cs) = lp c ++ encodeCerts cs := by simp [encodeCerts]
+
+theorem encodeCerts_length_ge (cs : List Bytes) : cs.length ≤ (encodeCerts cs).length := by
+  induction cs with
+  | nil => simp [encodeCerts]
+  | cons c cs ih =>
+    rw [encodeCerts_cons]; simp only [List.length_cons, List.length_append, lp_length]; omega
+
+theorem parseCertsF_roundtrip (cs : List Bytes) (r : Bytes) (hwf : ∀ c ∈ cs, c.length < 2 ^ 32) :
+    ∀ fuel, cs.length < fuel →
+      parseCertsF fuel (encodeCerts cs).length (encodeCerts cs ++ r) = .ok (cs, r) := by
+  induction cs with
+  | nil =>
+    intro fuel h
+    cases fuel with
+    | zero => omega
+    | succ f => simp [encodeCerts, parseCertsF]
+  | cons c cs ih =>
+    intro fuel h
+    cases fuel with
+    | zero => omega
+    | succ f =>
+      have hc := hwf c (by simp)
+      have hb : (encodeCerts (c :: cs)).length ≠ 0 := by
+        rw [encodeCerts_cons]; simp only [List.length_append, lp_length]; omega
+      rw [parseCertsF, if_neg hb, encodeCerts_cons, List.append_assoc]
+      simp only [bind, Except.bind]
+      rw [read_lp _ _ hc]
+      simp only [readUpTo_append]
+      have hbud : (lp c ++ encodeCerts cs).length - (4 + c.length) = (encodeCerts cs).length := by
+        simp only [List.length_append, lp_length]; omega
+      rw [hbud, ih (fun y hy => hwf y (by simp [hy])) f (by simpa using h)]
+
+/-! signed data, signer, value -/
+
+/-- what the code reports for an abstract signer: the fields as encoded; `_bytes` of the signer is
+    the slice `view[off : off + size_signer]`, which starts AT the length prefix (code quirk). -/
+def toModel (v3 : Bool) (s : Spec.SigBlock.Signer) : Signer :=
+  ⟨(encodeSigner v3 s).take (signerBody v3 s).length,
+   ⟨encodeSignedData v3 s, s.digests, s.certs, s.attrs, if v3 then some s.sdSdk else none⟩,
+   if v3 then some s.sgSdk else none, s.sigs, s.pubkey⟩
+
+theorem encSdk_length (v3 : Bool) (p : Nat × Nat) :
+    (encSdk v3 p).length = if v3 then 8 else 0 := by
+  cases v3 <;> simp [encSdk, encU32_length]
+
+theorem signerBody_length (v3 : Bool) (s : Spec.SigBlock.Signer) :
+    (signerBody v3 s).length =
+      (encodeSeq s.digests).length + (encodeCerts s.certs).length + s.attrs.length +
+      (encodeSeq s.sigs).length + s.pubkey.length + 24 + (if v3 then 16 else 0) := by
+  simp only [signerBody, encodeSignedData, List.length_append, lp_length, encSdk_length]
+  cases v3 <;> simp <;> omega
+
+theorem parseSignedData_roundtrip (v3 : Bool) (s : Spec.SigBlock.Signer) (h : SignerWF v3 s) :
+    parseSignedData v3 (encodeSignedData v3 s) = .ok (toModel v3 s).signed := by
+  obtain ⟨hd, _, hc, hlen, h1, h2, _, _⟩ := h
+  rw [signerBody_length] at hlen
+  have hf : s.certs.length < (encodeCerts s.certs ++ (encSdk v3 s.sdSdk ++ lp s.attrs)).length + 1 := by
+    have := encodeCerts_length_ge s.certs
+    simp only [List.length_append]; omega
+  unfold parseSignedData
+  simp only [bind, Except.bind]
+  rw [encodeSignedData, read_lp _ _ (by omega)]
+  simp only [readUpTo_append]
+  rw [parseSeq_roundtrip _ hd]
+  simp only []
+  rw [read_lp _ _ (by omega)]
+  simp only []
+  rw [parseCertsF_roundtrip _ _ hc _ hf]
+  simp only []
+  cases v3 with
+  | false =>
+    simp only [encSdk, Bool.false_eq_true, ↓reduceIte, List.nil_append]
+    have : lp s.attrs = lp s.attrs ++ [] := by simp
+    rw [this, read_lp _ _ (by omega)]
+    simp [toModel, encodeSignedData, encSdk]
+  | true =>
+    simp only [encSdk, ↓reduceIte, List.append_assoc]
+    rw [readU32_enc _ _ h1]
+    simp only []
+    rw [readU32_enc _ _ h2]
+    simp only []
+    have : lp s.attrs = lp s.attrs ++ [] := by simp
+    rw [this, read_lp _ _ (by omega)]
+    simp [toModel, encodeSignedData, encSdk]
+
+theorem encodeSignedData_length (v3 : Bool) (s : Spec.SigBlock.Signer) :
+    (encodeSignedData v3 s).length =
+      (encodeSeq s.digests).length + (encodeCerts s.certs).length + s.attrs.length + 12 +
+        (if v3 then 8 else 0) := by
+  simp only [encodeSignedData, List.length_append, lp_length, encSdk_length]
+  cases v3 <;> simp <;> omega
+
+theorem parseSigner_roundtrip (v3 : Bool) (s : Spec.SigBlock.Signer) (r : Bytes) (h : SignerWF v3 s) :
+    parseSigner v3 (encodeSigner v3 s ++ r) =
+      .ok (⟨(encodeSigner v3 s ++ r).take (signerBody v3 s).length, (toModel v3 s).signed,
+            (toModel v3 s).sdk, s.sigs, s.pubkey⟩, r) := by
+  have hsd := parseSignedData_roundtrip v3 s h
+  obtain ⟨_, hs, _, hlen, _, _, h3, h4⟩ := h
+  have hlen' := hlen
+  rw [signerBody_length] at hlen'
+  have hsdl := encodeSignedData_length v3 s
+  unfold parseSigner
+  simp only [bind, Except.bind]
+  rw [encodeSigner, read_lp _ _ hlen]
+  simp only []
+  rw [signerBody, List.append_assoc, read_lp _ _ (by split at hsdl <;> split at hlen' <;> omega)]
+  simp only [readUpTo_append]
+  rw [hsd]
+  simp only []
+  cases v3 with
+  | false =>
+    simp only [encSdk, Bool.false_eq_true, ↓reduceIte, List.nil_append, List.append_assoc]
+    simp only [Bool.false_eq_true, ↓reduceIte] at hlen'
+    rw [read_lp _ _ (by omega)]
+    simp only [readUpTo_append]
+    rw [parseSeq_roundtrip _ hs]
+    simp only []
+    rw [read_lp _ _ (by omega)]
+    simp [readUpTo_append, toModel, signerBody, encSdk]
+  | true =>
+    simp only [encSdk, ↓reduceIte, List.append_assoc]
+    simp only [↓reduceIte] at hlen'
+    rw [readU32_enc _ _ h3]
+    simp only []
+    rw [readU32_enc _ _ h4]
+    simp only []
+    rw [read_lp _ _ (by omega)]
+    simp only [readUpTo_append]
+    rw [parseSeq_roundtrip _ hs]
+    simp only []
+    rw [read_lp _ _ (by omega)]
+    simp [readUpTo_append, toModel, signerBody, encSdk]
+
+theorem parseSigner_roundtrip' (v3 : Bool) (s : Spec.SigBlock.Signer) (r : Bytes) (h : SignerWF v3 s) :
+    parseSigner v3 (encodeSigner v3 s ++ r) = .ok (toModel v3 s, r) := by
+  rw [parseSigner_roundtrip v3 s r h]
+  have : (encodeSigner v3 s ++ r).take (signerBody v3 s).length
+      = (encodeSigner v3 s).take (signerBody v3 s).length := by
+    apply List.take_append_of_le_length
+    simp only [encodeSigner, lp_length]; omega
+  rw [this]
+  cases v3 <;> rfl
+
+def encodeSigners (v3 : Bool) (ss : List Spec.SigBlock.Signer) : Bytes := ss.flatMap (encodeSigner v3)
+
+theorem encodeSigners_cons (v3 : Bool) (s : Spec.SigBlock.Signer) (ss : List Spec.SigBlock.Signer) :
+    encodeSigners v3 (s :: ss) = encodeSigner v3 s ++ encodeSigners v3 ss := by simp [encodeSigners]
+
+theorem encodeSigners_length_ge (v3 : Bool) (ss : List Spec.SigBlock.Signer) :
+    ss.length ≤ (encodeSigners v3 ss).length := by
+  induction ss with
+  | nil => simp [encodeSigners]
+  | cons s ss ih =>
+    rw [encodeSigners_cons]
+    simp only [List.length_cons, List.length_append, encodeSigner, lp_length]; omega
+
+theorem parseSignersF_roundtrip (v3 : Bool) (ss : List Spec.SigBlock.Signer)
+    (hwf : ∀ s ∈ ss, SignerWF v3 s) :
+    ∀ fuel, ss.length < fuel →
+      parseSignersF v3 fuel (encodeSigners v3 ss) = .ok (ss.map (toModel v3)) := by
+  induction ss with
+  | nil =>
+    intro fuel h
+    cases fuel with
+    | zero => omega
+    | succ f => simp [encodeSigners, parseSignersF]
+  | cons s ss ih =>
+    intro fuel h
+    cases fuel with
+    | zero => omega
+    | succ f =>
+      have hne : (encodeSigners v3 (s :: ss)).isEmpty = false := by
+        simp [encodeSigners, encodeSigner, lp, encU32]
+      rw [parseSignersF, hne, encodeSigners_cons]
+      simp only [Bool.false_eq_true, ↓reduceIte, bind, Except.bind]
+      rw [parseSigner_roundtrip' v3 s _ (hwf s (by simp))]
+      simp only []
+      rw [ih (fun y hy => hwf y (by simp [hy])) f (by simpa using h)]
+      simp
+
+theorem parseValue_roundtrip (v3 : Bool) (ss : List Spec.SigBlock.Signer)
+    (hwf : ∀ s ∈ ss, SignerWF v3 s) (hlen : (encodeSigners v3 ss).length < 2 ^ 32) :
+    parseValue v3 (encodeValue v3 ss) = .ok (ss.map (toModel v3)) := by
+  unfold parseValue
+  simp only [bind, Except.bind]
+  have : encodeValue v3 ss = lp (encodeSigners v3 ss) ++ [] := by simp [encodeValue, encodeSigners]
+  rw [this, read_lp _ _ hlen]
+  simp only [List.append_nil, lp_length, ne_eq, not_true_eq_false, ↓reduceIte]
+  exact parseSignersF_roundtrip v3 ss hwf _ (by have := encodeSigners_length_ge v3 ss; omega)
+
+/-! the outer walk -/
+def ofTriple (t : Nat × Bool × Bytes) : Block := ⟨t.1, t.2.1, t.2.2⟩
+
+theorem encodePairs_cons (p : Pair) (ps : List Pair) :
+    encodePairs (p :: ps) = encodePair p ++ encodePairs ps := by simp [encodePairs]
+
+theorem encodePair_length (p : Pair) : (encodePair p).length = p.2.length + 12 := by
+  simp only [encodePair, List.length_append, encU64_length, encU32_length]; omega
+
+theorem encodePairs_length_ge (ps : List Pair) : ps.length ≤ (encodePairs ps).length := by
+  induction ps with
+  | nil => simp [encodePairs]
+  | cons p ps ih =>
+    rw [encodePairs_cons]; simp only [List.length_cons, List.length_append, encodePair_length]; omega
+
+theorem any_id_eq_contains (acc : List Block) (k : Nat) :
+    acc.any (·.id == k) = (acc.map (·.id)).contains k := by
+  induction acc with
+  | nil => simp
+  | cons b acc ih =>
+    simp only [List.any_cons, List.map_cons, List.contains_cons, ih]
+    rw [Bool.beq_comm]
+
+theorem walkF_step (fuel tl : Nat) (p : Pair) (rest : Bytes) (acc : List Block) (hp : PairWF p)
+    (htl : tl ≤ rest.length) :
+    walkF (fuel + 1) tl (encodePair p ++ rest) acc =
+      walkF fuel tl rest (acc ++ [⟨p.1, (acc.map (·.id)).contains p.1, p.2⟩]) := by
+  obtain ⟨h1, h2⟩ := hp
+  have hl : (encodePair p ++ rest).length = p.2.length + 12 + rest.length := by
+    simp only [List.length_append, encodePair_length]
+  have e8 : (encodePair p ++ rest).take 8 = encU64 (4 + p.2.length) := by
+    simp [encodePair, encU64, encU32]
+  have e4 : ((encodePair p ++ rest).drop 8).take 4 = encU32 p.1 := by
+    simp [encodePair, encU64, encU32]
+  have e12 : (encodePair p ++ rest).drop 12 = p.2 ++ rest := by
+    simp [encodePair, encU64, encU32]
+  rw [walkF]
+  rw [if_pos (by omega), if_neg (by omega)]
+  simp only [e8, e4, e12]
+  rw [leNat_encU64 _ (by omega), leNat_encU32 _ h1]
+  rw [if_neg (by omega), if_neg (by omega)]
+  have : 4 + p.2.length - 4 = p.2.length := by omega
+  rw [this, any_id_eq_contains]
+  simp
+
+theorem walkF_roundtrip (ps : List Pair) (tail : Bytes) (hwf : ∀ p ∈ ps, PairWF p) :
+    ∀ (fuel : Nat) (acc : List Block), ps.length < fuel →
+      walkF fuel tail.length (encodePairs ps ++ tail) acc =
+        (acc ++ (reported (acc.map (·.id)) ps).map ofTriple, none) := by
+  induction ps with
+  | nil =>
+    intro fuel acc h
+    cases fuel with
+    | zero => omega
+    | succ f => simp [encodePairs, walkF, reported]
+  | cons p ps ih =>
+    intro fuel acc h
+    cases fuel with
+    | zero => omega
+    | succ f =>
+      rw [encodePairs_cons, List.append_assoc,
+        walkF_step _ _ _ _ _ (hwf p (by simp)) (by simp only [List.length_append]; omega),
+        ih (fun y hy => hwf y (by simp [hy])) f _ (by simpa using h)]
+      simp [reported, ofTriple]
+
+/-! the whole file -/
+theorem readAt_mid (a b c : Bytes) (pos k : Nat) (hp : pos = a.length) (hk : k = b.length) :
+    readAt (a ++ (b ++ c)) pos k = some b := by
+  subst hp hk
+  simp [readAt]
+
+theorem consts_eq : Gen.SigBlock.pkEocd = zipEocdSig ∧ Gen.SigBlock.pkCd = zipCdSig ∧
+    Gen.SigBlock.sigMagic = magic := by decide
+
+/-- the file laid out in parts: local entries `pre`, block = size | pairs `P` | size | magic,
+    central directory, EOCD (no comment) whose central-directory offset is `oc`. -/
+def fileOf (pre P cdRest mid : Bytes) (sz oc : Nat) : Bytes :=
+  pre ++ (encU64 sz ++ (P ++ (encU64 sz ++ (magic ++ (zipCdSig ++ (cdRest ++
+    (zipEocdSig ++ (mid ++ (encU32 oc ++ [0, 0])))))))))
+
+theorem fileOf_length (pre P cdRest mid : Bytes) (sz oc : Nat) (hmid : mid.length = 12) :
+    (fileOf pre P cdRest mid sz oc).length = pre.length + P.length + cdRest.length + 58 := by
+  simp only [fileOf, List.length_append, encU64_length, encU32_length, hmid, magic, zipCdSig,
+    zipEocdSig, List.length_cons, List.length_nil]
+  omega
+
+theorem readAt_some {f : Bytes} {pos k : Nat} {b : Bytes} (h : readAt f pos k = some b) :
+    (f.drop pos).take k = b := by
+  unfold readAt at h
+  simp only [] at h
+  split at h
+  · simpa using h
+  · simp at h
+
+theorem parseOuter_fileOf (pre P cdRest mid : Bytes) (sz oc : Nat) (bs : List Block)
+    (hsz : sz = P.length + 24) (hoc : oc = pre.length + P.length + 32) (hmid : mid.length = 12)
+    (hoc32 : oc < 2 ^ 32) (hsz63 : sz + 8 ≤ 2 ^ 63)
+    (hwalk : walkF ((fileOf pre P cdRest mid sz oc).length + 1) (cdRest.length + 50)
+      (P ++ (encU64 sz ++ (magic ++ (zipCdSig ++ (cdRest ++
+        (zipEocdSig ++ (mid ++ (encU32 oc ++ [0, 0])))))))) [] = (bs, none)) :
+    parseOuter (fileOf pre P cdRest mid sz oc) =
+      ⟨some (hasId bs Gen.SigBlock.keyV2, hasId bs Gen.SigBlock.keyV3, hasId bs Gen.SigBlock.keyV31),
+        bs, none⟩ := by
+  obtain ⟨c1, c2, c3⟩ := consts_eq
+  have hn := fileOf_length pre P cdRest mid sz oc hmid
+  have hq : ∃ q, q = pre.length + P.length + cdRest.length + 36 := ⟨_, rfl⟩
+  obtain ⟨q, hq⟩ := hq
+  have hr0 : readAt (fileOf pre P cdRest mid sz oc) q 4 = some zipEocdSig := by
+    have := readAt_mid (pre ++ (encU64 sz ++ (P ++ (encU64 sz ++ (magic ++ (zipCdSig ++ cdRest))))))
+        zipEocdSig (mid ++ (encU32 oc ++ [0, 0])) q 4
+        (by simp only [List.length_append, encU64_length, magic, zipCdSig, List.length_cons,
+              List.length_nil]; omega) rfl
+    simpa only [fileOf, List.append_assoc] using this
+  have hr1 : readAt (fileOf pre P cdRest mid sz oc) (q + 4) 16 = some (mid ++ encU32 oc) := by
+    have := readAt_mid (pre ++ (encU64 sz ++ (P ++ (encU64 sz ++ (magic ++ (zipCdSig ++ (cdRest ++ zipEocdSig)))))))
+      (mid ++ encU32 oc) [0, 0] (q + 4) 16
+      (by simp only [List.length_append, encU64_length, magic, zipCdSig, zipEocdSig, List.length_cons,
+            List.length_nil]; omega)
+      (by simp only [List.length_append, hmid, encU32_length])
+    simpa only [fileOf, List.append_assoc] using this
+  have hr2 : readAt (fileOf pre P cdRest mid sz oc) oc 4 = some zipCdSig := by
+    have := readAt_mid (pre ++ (encU64 sz ++ (P ++ (encU64 sz ++ magic)))) zipCdSig
+      (cdRest ++ (zipEocdSig ++ (mid ++ (encU32 oc ++ [0, 0])))) oc 4
+      (by simp only [List.length_append, encU64_length, magic, List.length_cons, List.length_nil]; omega) rfl
+    simpa only [fileOf, List.append_assoc] using this
+  have hr3 : readAt (fileOf pre P cdRest mid sz oc) (oc - 24) 24 = some (encU64 sz ++ magic) := by
+    have := readAt_mid (pre ++ (encU64 sz ++ P)) (encU64 sz ++ magic)
+      (zipCdSig ++ (cdRest ++ (zipEocdSig ++ (mid ++ (encU32 oc ++ [0, 0]))))) (oc - 24) 24
+      (by simp only [List.length_append, encU64_length]; omega)
+      (by simp only [List.length_append, encU64_length, magic, List.length_cons, List.length_nil])
+    simpa only [fileOf, List.append_assoc] using this
+  have hr4 : readAt (fileOf pre P cdRest mid sz oc) pre.length 8 = some (encU64 sz) := by
+    have := readAt_mid pre (encU64 sz) (P ++ (encU64 sz ++ (magic ++ (zipCdSig ++ (cdRest ++
+      (zipEocdSig ++ (mid ++ (encU32 oc ++ [0, 0])))))))) pre.length 8 rfl rfl
+    simpa only [fileOf, List.append_assoc] using this
+  have hdrop : (fileOf pre P cdRest mid sz oc).drop (pre.length + 8) =
+      P ++ (encU64 sz ++ (magic ++ (zipCdSig ++ (cdRest ++
+        (zipEocdSig ++ (mid ++ (encU32 oc ++ [0, 0]))))))) := by
+    rw [fileOf, ← List.append_assoc]
+    apply List.drop_left'
+    simp [encU64_length]
+  generalize fileOf pre P cdRest mid sz oc = f at hn hwalk hr0 hr1 hr2 hr3 hr4 hdrop ⊢
+  have hscan : scanEocd f (f.length - 1 - 20) = some q := by
+    have : f.length - 1 - 20 = q + 1 := by omega
+    rw [this, scanEocd, readAt_some hr0, c1]; simp
+  have hoc' : leNat ((mid ++ encU32 oc).drop 12) = oc := by
+    rw [List.drop_left' hmid]; exact leNat_encU32 _ hoc32
+  have ht8 : (encU64 sz ++ magic).take 8 = encU64 sz := List.take_left' (encU64_length sz)
+  have hd8 : (encU64 sz ++ magic).drop 8 = magic := List.drop_left' (encU64_length sz)
+  have hsz' : leNat (encU64 sz) = sz := leNat_encU64 _ (by omega)
+  have hpos2 : oc - 24 + 24 - (sz + 8) = pre.length := by omega
+  have htl : f.length - oc + 24 = cdRest.length + 50 := by omega
+  unfold parseOuter
+  simp only [hscan, hr1, hoc', hr2, hr3, ht8, hd8, hsz', hpos2, hr4, hdrop, htl, hwalk, c2, c3]
+  have h0 : ¬ oc = 0 := by omega
+  have h63 : ¬ 2 ^ 63 < sz + 8 := by omega
+  simp [h0, h63]
+
+/-! what `reported` says -/
+
+theorem reported_pairs (seen : List Nat) (ps : List Pair) :
+    (reported seen ps).map (fun t => (t.1, t.2.2)) = ps := by
+  induction ps generalizing seen with
+  | nil => rfl
+  | cons p ps ih => simp [reported, ih]
+
+theorem hasId_reported (seen : List Nat) (ps : List Pair) (k : Nat) :
+    hasId ((reported seen ps).map ofTriple) k = true ↔ ∃ p ∈ ps, p.1 = k := by
+  induction ps generalizing seen with
+  | nil => simp [reported, hasId]
+  | cons p ps ih =>
+    have := ih (seen ++ [p.1])
+    simp only [hasId] at this ⊢
+    simp only [reported, List.map_cons, List.any_cons, ofTriple, Bool.or_eq_true, beq_iff_eq, this]
+    simp
+
+theorem dup_reported (seen : List Nat) (ps : List Pair) :
+    ((reported seen ps).map ofTriple).any (·.dup) = true ↔
+      ¬ ((ps.map (·.1)).Nodup ∧ ∀ k ∈ ps.map (·.1), k ∉ seen) := by
+  induction ps generalizing seen with
+  | nil => simp [reported]
+  | cons p ps ih =>
+    have := ih (seen ++ [p.1])
+    simp only [reported, List.map_cons, List.any_cons, Bool.or_eq_true, this, ofTriple]
+    simp only [List.contains_eq_mem, decide_eq_true_eq, List.nodup_cons, List.mem_cons, List.mem_append,
+      List.not_mem_nil, or_false, List.mem_map, forall_eq_or_imp]
+    constructor
+    · rintro (h | h)
+      · intro ⟨_, h2, _⟩; exact h2 h
+      · intro ⟨⟨h1, h2⟩, h3, h4⟩
+        apply h
+        refine ⟨h2, ?_⟩
+        intro k hk
+        have := h4 k hk
+        intro hh
+        rcases hh with hh | hh
+        · exact this hh
+        · subst hh; exact h1 hk
+    · intro h
+      by_cases hs : p.1 ∈ seen
+      · exact Or.inl hs
+      · right
+        intro ⟨h2, h4⟩
+        apply h
+        refine ⟨⟨?_, h2⟩, hs, ?_⟩
+        · intro hk
+          exact (h4 p.1 hk) (Or.inr rfl)
+        · intro k hk hh
+          exact (h4 k hk) (Or.inl hh)
+
+theorem find_reported (seen : List Nat) (ps : List Pair) (k : Nat) :
+    (((reported seen ps).map ofTriple).find? (·.id == k)).map (·.data) =
+      (ps.find? (·.1 == k)).map (·.2) := by
+  induction ps generalizing seen with
+  | nil => rfl
+  | cons p ps ih =>
+    simp only [reported, List.map_cons, List.find?_cons, ofTriple]
+    by_cases h : p.1 == k
+    · simp [h]
+    · simp only [h]; exact ih _
+
+
+/-! the specification's `apkFile` -/
+theorem apkFile_eq (pre : Bytes) (ps : List Pair) (cdRest mid : Bytes) :
+    apkFile pre ps cdRest mid = fileOf pre (encodePairs ps) cdRest mid
+      ((encodePairs ps).length + 24) (pre.length + (encodeBlock ps).length) := by
+  simp [apkFile, fileOf, encodeBlock, eocd, List.append_assoc]
+
+theorem parseOuter_apkFile (pre : Bytes) (ps : List Pair) (cdRest mid : Bytes) (h : FileWF pre ps mid) :
+    parseOuter (apkFile pre ps cdRest mid) =
+      ⟨some (hasId ((reported [] ps).map ofTriple) Gen.SigBlock.keyV2, hasId ((reported [] ps).map ofTriple) Gen.SigBlock.keyV3,
+          hasId ((reported [] ps).map ofTriple) Gen.SigBlock.keyV31), (reported [] ps).map ofTriple, none⟩ := by
+  obtain ⟨hp, hmid, hoff⟩ := h
+  have hbl : (encodeBlock ps).length = (encodePairs ps).length + 32 := by
+    simp only [encodeBlock, List.length_append, encU64_length, magic, List.length_cons, List.length_nil]
+    omega
+  rw [apkFile_eq]
+  apply parseOuter_fileOf _ _ _ _ _ _ _ rfl (by omega) hmid (by omega) (by omega)
+  have hw := walkF_roundtrip ps
+    (encU64 ((encodePairs ps).length + 24) ++ (magic ++ (zipCdSig ++ (cdRest ++
+      (zipEocdSig ++ (mid ++ (encU32 (pre.length + (encodeBlock ps).length) ++ [0, 0]))))))) hp
+    ((fileOf pre (encodePairs ps) cdRest mid ((encodePairs ps).length + 24)
+      (pre.length + (encodeBlock ps).length)).length + 1) []
+    (by rw [fileOf_length _ _ _ _ _ _ hmid]; have := encodePairs_length_ge ps; omega)
+  have hl : (encU64 ((encodePairs ps).length + 24) ++ (magic ++ (zipCdSig ++ (cdRest ++
+      (zipEocdSig ++ (mid ++ (encU32 (pre.length + (encodeBlock ps).length) ++ [0, 0]))))))).length
+      = cdRest.length + 50 := by
+    simp only [List.length_append, encU64_length, encU32_length, hmid, magic, zipCdSig, zipEocdSig,
+      List.length_cons, List.length_nil]
+    omega
+  rw [hl] at hw
+  simpa using hw
+
+
 end AgVerif.SigBlock
